@@ -568,6 +568,13 @@ impl<'a> Gen<'a> {
                 VOp::TransferFrom { epoch, caller, from, to, amount, p }
             }
             6 => {
+                // boundary: claim exactly at (or one epoch after) an open allocation's expiration
+                let mut epoch = epoch;
+                let exps: Vec<i64> = s.allocs.values().map(|a| a.expiration).filter(|x| *x >= epoch).collect();
+                if !exps.is_empty() && self.r.chance(22) {
+                    epoch = *self.r.pick(&exps) + if self.r.chance(75) { 0 } else { 1 };
+                    self.epoch = epoch;
+                }
                 let mut provs: Vec<u64> = s.allocs.values().filter(|a| a.expiration >= epoch).map(|a| a.provider).collect();
                 if provs.is_empty() { provs = s.allocs.values().map(|a| a.provider).collect(); }
                 let caller = match self.r.below(100) { 0..=84 if !provs.is_empty() => *self.r.pick(&provs), 0..=94 => *self.r.pick(&w.miners), _ => self.party(w) };
@@ -578,6 +585,13 @@ impl<'a> Gen<'a> {
                 let clients: Vec<u64> = s.allocs.keys().map(|k| k.0).collect();
                 let client = if !clients.is_empty() && self.r.chance(85) { *self.r.pick(&clients) } else { self.party(w) };
                 let have: Vec<u64> = s.allocs.keys().filter(|k| k.0 == client).map(|k| k.1).collect();
+                // boundary: exactly at (or one epoch before) an allocation's expiration
+                let mut epoch = epoch;
+                let exps: Vec<i64> = s.allocs.iter().filter(|(k, _)| k.0 == client).map(|(_, a)| a.expiration).filter(|x| *x > epoch).collect();
+                if !exps.is_empty() && self.r.chance(30) {
+                    epoch = *self.r.pick(&exps) - if self.r.chance(70) { 0 } else { 1 };
+                    self.epoch = epoch;
+                }
                 let ids = self.ids_from(&have, s.next_id);
                 VOp::RemoveExpAllocs { epoch, caller: self.party_existing(w), client, ids }
             }
@@ -585,6 +599,13 @@ impl<'a> Gen<'a> {
                 let provs: Vec<u64> = s.claims.keys().map(|k| k.0).collect();
                 let provider = if !provs.is_empty() && self.r.chance(85) { *self.r.pick(&provs) } else { self.party(w) };
                 let have: Vec<u64> = s.claims.keys().filter(|k| k.0 == provider).map(|k| k.1).collect();
+                // boundary: exactly at (or one epoch before) the end of a claim's term
+                let mut epoch = epoch;
+                let ends: Vec<i64> = s.claims.iter().filter(|(k, _)| k.0 == provider).map(|(_, c)| c.term_start + c.term_max).filter(|x| *x > epoch).collect();
+                if !ends.is_empty() && self.r.chance(20) {
+                    epoch = *self.r.pick(&ends) - if self.r.chance(70) { 0 } else { 1 };
+                    self.epoch = epoch;
+                }
                 let ids = self.ids_from(&have, s.next_id);
                 VOp::RemoveExpClaims { epoch, caller: self.party_existing(w), provider, ids }
             }
